@@ -17,6 +17,8 @@ type Reader struct {
 	Pos    int
 	Calls  int
 	Budget int // 0 = 64+16*len
+	// MaxChunk, when > 0, is the most bytes one Read call returns (short reads are legal for an io.Reader)
+	MaxChunk int
 	// Tripped is set when the budget was exceeded (the code under test may recover the panic)
 	Tripped bool
 	// Next, if set, supplies bytes lazily (environment-driven exploration): called
@@ -62,7 +64,11 @@ func (r *Reader) Read(p []byte) (int, error) {
 		return 0, nil
 	}
 	n := 0
-	for n < len(p) && r.fill() {
+	limit := len(p)
+	if r.MaxChunk > 0 && limit > r.MaxChunk {
+		limit = r.MaxChunk
+	}
+	for n < limit && r.fill() {
 		p[n] = r.Data[r.Pos]
 		r.Pos++
 		n++
@@ -146,12 +152,17 @@ type Writer struct {
 	Max     int // maximum number of Write calls before panicking with Runaway (0 = 1<<20)
 	Lost    bool
 	Tripped bool
+	// OnWrite, if set, runs at the start of every Write call (e.g. to force a garbage collection)
+	OnWrite func()
 }
 
 // NewWriter builds a writer that never fails.
 func NewWriter() *Writer { return &Writer{FaultAt: -1} }
 
 func (w *Writer) Write(p []byte) (int, error) {
+	if w.OnWrite != nil {
+		w.OnWrite()
+	}
 	k := w.Calls
 	w.Calls++
 	max := w.Max
